@@ -109,7 +109,7 @@ def prune_cache(keep=12):
         pass
 
 
-def regenerate():
+def regenerate(templates=True):
     """T1/T2: regenerate Ark/Generated/*.lean from /repo's current source."""
     ext = os.path.join(VERIF, "tools", "extract")
     if not os.path.isdir(ext):
@@ -130,17 +130,28 @@ def regenerate():
     tmp_dir = os.path.join(CACHE, "gen-%d" % os.getpid())
     shutil.rmtree(tmp_dir, ignore_errors=True)
     os.makedirs(tmp_dir)
-    rc, out, err = sh([binp, "-repo", REPO, "-out", tmp_dir], timeout=300)
+    # the template comparison re-runs ark's code generator (`go run`): only C14 needs it
+    args = [binp, "-repo", REPO, "-out", tmp_dir] + ([] if templates else ["-templates=false"])
+    for attempt in range(3):
+        try:
+            rc, out, err = sh(args, timeout=600)
+            break
+        except subprocess.TimeoutExpired:
+            rc, out, err = 2, "", "extractor timed out (attempt %d)" % (attempt + 1)
     info = {"regenerated": True, "extract_rc": rc, "extract_msgs": (out + err).strip().splitlines()[-20:]}
     if rc != 0:
         shutil.rmtree(tmp_dir, ignore_errors=True)
         info["error"] = "extractor failed"
-        raise Failure("extractor failed (a source fragment no longer has the expected shape):\n" + out + err)
+        raise Failure("extractor failed (the source does not parse):\n" + out + err)
+    # fragments that no longer have a translatable shape: their definitions are omitted from the
+    # generated files, so exactly the Props modules depending on them stop building
+    pf = os.path.join(tmp_dir, "problems.txt")
+    info["fragment_problems"] = [l for l in open(pf).read().splitlines() if l.strip()] if os.path.exists(pf) else []
     # install only files whose content changed, so that lake rebuilds exactly what depends on them
     os.makedirs(gen_dir, exist_ok=True)
-    produced = set(os.listdir(tmp_dir))
+    produced = set(f for f in os.listdir(tmp_dir) if f.endswith(".lean"))
     for f in os.listdir(gen_dir):
-        if f.endswith(".lean") and f not in produced:
+        if f.endswith(".lean") and f not in produced and not (f == "FactsTemplates.lean" and not templates):
             os.remove(os.path.join(gen_dir, f))
     changed = []
     for f in produced:
@@ -593,6 +604,8 @@ class Correspondence:
             rc, impl, _ = run_replay(harness, lines)
             if rc != 0:
                 return True
+            if "other:harness:" in impl:
+                return False    # a malformed candidate (e.g. a component used before its `reg`), not the failure
             if self_checks(impl, lines) and self.cfg.get("self_checks", True):
                 return True
             model = run_model(driver, lines)
@@ -723,15 +736,18 @@ def main(argv):
         lockf = open(os.path.join(CACHE, "lean.lock"), "w")
         fcntl.flock(lockf, fcntl.LOCK_EX)
         try:
-            regen_info = regenerate()
+            regen_info = regenerate(templates=(pid == "C14"))
         except Failure as ex:
             regen_info = {"regenerated": False, "error": str(ex)[:2000]}
             violations.append({"property": pid, "kind": "tie", "what": "source fragment not translatable: " + str(ex)[:1500], "ops": []})
         ok, proof_info = proof_step(pid)
         if not ok:
+            fp = regen_info.get("fragment_problems") or []
             violations.append({"property": pid, "kind": "proof",
-                               "what": "proof obligations of Ark.Props.%s no longer check against the definitions regenerated from the source: %s" % (pid, "; ".join(proof_info.get("failed", []))[:1500]),
-                               "broken_theorems": proof_info.get("failed", []), "ops": []})
+                               "what": "proof obligations of Ark.Props.%s no longer check against the definitions regenerated from the source: %s%s" % (
+                                   pid, "; ".join(proof_info.get("failed", []))[:1500],
+                                   (" | source fragments the translator could not handle: " + "; ".join(fp)[:800]) if fp else ""),
+                               "broken_theorems": proof_info.get("failed", []), "fragment_problems": fp, "ops": []})
         if tier == "thorough":
             rc, out, err = sh(["lake", "env", "leanchecker", "Ark.Props." + pid], cwd=LEAN, timeout=1800)
             proof_info["leanchecker_rc"] = rc
